@@ -248,6 +248,53 @@ Proof.
     destruct (snd (gone_list rp ch)); cbn [fst]; [|exact Hl].
     apply Forall_app. split; [exact Hl|constructor; [exact E|constructor]].
 Qed.
+
+(* "a directory only when empty (its matched children having been removed first)": the flag of [gone] says that everything at
+   and below [rp] is removed, and then the removed entries are the whole -depth sequence below [rp], children before their
+   directory; the entry [rp] itself is removed exactly in that case *)
+Definition ev_path (e : event) : rpath := match e with EFile p => p | EDir p _ => p end.
+Theorem gone_all_below : forall n rp, snd (gone M rp n) = true -> fst (gone M rp n) = map ev_path (posto rp n).
+Proof.
+  induction n as [|ch IH] using node_ind2; intros rp.
+  - cbn. destruct (M rp); cbn; [reflexivity|discriminate].
+  - rewrite gone_dir, posto_dir. cbn zeta.
+    assert (Hl : snd (gone_list rp ch) = true -> fst (gone_list rp ch) = map ev_path (posto_list rp ch)).
+    { induction ch as [|[nm x] ch IHch]; [reflexivity|]. inversion IH as [|? ? Hx Hl]; subst.
+      rewrite gone_list_cons. cbn [fst snd]. intros E. apply andb_true_iff in E as [E1 E2].
+      change (posto_list rp ((nm, x) :: ch)) with (posto (nm :: rp) x ++ posto_list rp ch).
+      rewrite map_app. f_equal; [now apply Hx|now apply IHch]. }
+    destruct (M rp && snd (gone_list rp ch)) eqn:E; cbn [fst snd]; [|discriminate].
+    intros _. apply andb_true_iff in E as [_ E]. rewrite map_app. cbn. now rewrite Hl.
+Qed.
+Theorem gone_under : forall n rp, Forall (under rp) (fst (gone M rp n)).
+Proof.
+  induction n as [|ch IH] using node_ind2; intros rp.
+  - cbn. destruct (M rp); cbn; [constructor; [apply under_refl|constructor]|constructor].
+  - rewrite gone_dir. cbn zeta.
+    assert (Hl : Forall (under rp) (fst (gone_list rp ch))).
+    { induction ch as [|[nm x] ch IHch]; [constructor|]. inversion IH as [|? ? Hx Hl]; subst.
+      rewrite gone_list_cons. cbn [fst]. apply Forall_app. split; [|now apply IHch].
+      eapply Forall_impl; [|apply Hx]. intros p. apply under_cons. }
+    destruct (M rp && snd (gone_list rp ch)); cbn [fst]; [|exact Hl].
+    apply Forall_app. split; [exact Hl|constructor; [apply under_refl|constructor]].
+Qed.
+Lemma gone_list_strictly_under rp ch : Forall (fun p => exists k, under (k :: rp) p) (fst (gone_list rp ch)).
+Proof.
+  induction ch as [|[nm x] ch IHch]; [constructor|]. rewrite gone_list_cons. cbn [fst]. apply Forall_app. split; [|exact IHch].
+  eapply Forall_impl; [|apply gone_under]. intros p Hp. now exists nm.
+Qed.
+Theorem gone_self_iff : forall n rp, In rp (fst (gone M rp n)) <-> snd (gone M rp n) = true.
+Proof.
+  intros [|ch] rp.
+  - cbn. destruct (M rp); cbn; intuition discriminate.
+  - rewrite gone_dir. cbn zeta.
+    assert (N : ~ In rp (fst (gone_list rp ch))).
+    { intros Hin. pose proof (gone_list_strictly_under rp ch) as F. rewrite Forall_forall in F.
+      destruct (F _ Hin) as [k Hk]. exact (not_under_self _ _ Hk). }
+    destruct (M rp && snd (gone_list rp ch)); cbn [fst snd].
+    + split; [reflexivity|]. intros _. apply in_or_app. right. now left.
+    + split; [intros H; contradiction|discriminate].
+Qed.
 End Proofs.
 Check delete_exact.
 Print Assumptions delete_exact.
